@@ -66,6 +66,12 @@ func build(race bool) (string, error) {
 	return p, nil
 }
 
+// The episodes' own outgoing connections must not take the fixed production
+// ports (35015/35030/35045 lie inside the default ephemeral range 32768-60999:
+// a client socket that was given 35030 as its source port makes the
+// restarted server's bind fail with "address already in use"), so the
+// namespace's ephemeral range is moved above them before the episode starts.
+
 // canUnshare: a private network namespace is available (root in the sandbox).
 func canUnshare() bool {
 	return exec.Command("unshare", "-n", "--", "true").Run() == nil
@@ -166,9 +172,9 @@ func runEpisodes(r *ev.Result, b run.Batch, seed int64, scenarios []string, only
 		ctx, cancel := context.WithTimeout(context.Background(), 150*time.Second)
 		var cmd *exec.Cmd
 		if sc == "clientlife" {
-			cmd = exec.CommandContext(ctx, "unshare", "-n", "-m", "--", "sh", "-c", `ip link set lo up && mount -t tmpfs tmpfs /opt && mount -t tmpfs tmpfs /dev/shm && exec "$0" "$@"`, bin, work, fmt.Sprint(es), sc)
+			cmd = exec.CommandContext(ctx, "unshare", "-n", "-m", "--", "sh", "-c", `ip link set lo up && { echo "40000 60999" > /proc/sys/net/ipv4/ip_local_port_range; } 2>/dev/null; mount -t tmpfs tmpfs /opt && mount -t tmpfs tmpfs /dev/shm && exec "$0" "$@"`, bin, work, fmt.Sprint(es), sc)
 		} else if ns {
-			cmd = exec.CommandContext(ctx, "unshare", "-n", "--", "sh", "-c", `ip link set lo up && exec "$0" "$@"`, bin, work, fmt.Sprint(es), sc)
+			cmd = exec.CommandContext(ctx, "unshare", "-n", "--", "sh", "-c", `ip link set lo up && { echo "40000 60999" > /proc/sys/net/ipv4/ip_local_port_range; } 2>/dev/null; exec "$0" "$@"`, bin, work, fmt.Sprint(es), sc)
 		} else {
 			cmd = exec.CommandContext(ctx, bin, work, fmt.Sprint(es), sc)
 		}
@@ -310,7 +316,7 @@ func RunCrash(r *ev.Result, b run.Batch, seed int64, n int) {
 		return
 	}
 	wrap := func(args ...string) *exec.Cmd {
-		a := append([]string{"-n", "--", "sh", "-c", `ip link set lo up && exec "$0" "$@"`, bin}, args...)
+		a := append([]string{"-n", "--", "sh", "-c", `ip link set lo up && { echo "40000 60999" > /proc/sys/net/ipv4/ip_local_port_range; } 2>/dev/null; exec "$0" "$@"`, bin}, args...)
 		cmd := exec.Command("unshare", a...)
 		for _, kv := range os.Environ() {
 			k := strings.ToUpper(kv[:strings.Index(kv+"=", "=")])
